@@ -54,6 +54,8 @@ func errClass(err error) string {
 		return "refused"
 	case has("NewStreamWithCryptoState"):
 		return "malformed"
+	case has("deadline exceeded"), has("context canceled"):
+		return "cancelled"
 	}
 	return "other:" + strings.ReplaceAll(m, " ", "_")
 }
